@@ -178,6 +178,66 @@ def build_twice_held(rng):
     return scn, 'twice_held'
 
 
+_TPL = []
+
+
+def broken_templates():
+    """a directory of user templates that jinja2 refuses in four different ways"""
+    import atexit
+    import os
+    import shutil
+    import tempfile
+    from vlib import env
+    if not _TPL:
+        d = tempfile.mkdtemp(prefix='verif-c07t-', dir=env.scratch_root())
+        for name, body in (('syntax.j2', '{% if %}oops{% endif %}\n'), ('filter.j2', '{{ mib|nosuchfilter }}\n'),
+                           ('include.j2', '{% include "nowhere/nothing.j2" %}\n'),
+                           ('undefined.j2', '{{ nosuchvariable.attribute }}\n')):
+            with open(os.path.join(d, name), 'w') as f:
+                f.write(body)
+        atexit.register(shutil.rmtree, d, True)
+        _TPL.append(d)
+    return _TPL[0]
+
+
+def case_broken_template(idx, rng, res):
+    """stress: the code generator is asked to render through a user template jinja2 refuses - a
+    component failure signalled with the package's error: every generated module is failed, nothing
+    escapes, nothing is written for the failed ones"""
+    import os
+    gname = rng.choice(['single', 'chain2', 'star'])
+    mods, g = orch.GRAPHS[gname]
+    scn = orch.new_scenario(mods, g, [mods[0]])
+    tpl = rng.choice(['syntax.j2', 'filter.j2', 'include.j2', 'undefined.j2', 'missing.j2'])
+    scn['options'] = dict(rng.choice([{}, {'ignoreErrors': True}, {'genTexts': True}]), dstTemplate=tpl)
+    backend = rng.choice(['json', 'pysnmp'])
+    cwd = os.getcwd()
+    os.chdir(broken_templates())
+    try:
+        run = orch.execute(scn, codegen=backend)
+    finally:
+        os.chdir(cwd)
+
+    def V(monitor, detail, **features):
+        res.violation(monitor, detail, replay=dict(scn, backend=backend), broken_template=tpl, backend=backend, **features)
+    res.count('stress_broken_template')
+    res.sig = harness.stable_hash(['tpl', scn, backend])
+    if 'exception' in run:
+        exc = run['exception']
+        V('I1_exception_escaped', 'compile() raised %s: %s' % (type(exc).__name__, str(exc)[:200]), exc=type(exc).__name__)
+        return
+    from pysmi import error as perr
+    result = run['result']
+    puts = [e['name'] for e in run['trace'].select('writer', 'putData', 'call')]
+    for m in mods:
+        st = result.get(m)
+        if st != 'failed' or not isinstance(getattr(st, 'error', None), perr.PySmiCodegenError):
+            V('I6_template_failure_status', '%s is %r (error %r), expected failed with the code generator\'s error' % (
+                m, str(st), getattr(st, 'error', None)))
+        if m in puts:
+            V('I4_write_without_status', '%s handed to the writer although its rendering failed' % m, status=str(st))
+
+
 def case_failpoints(idx, rng, tier, res):
     """real components, one package error raised at a random executed line inside a component"""
     from vlib import failpoints
@@ -256,6 +316,8 @@ def run_case(idx, rng, tier, res):
     plan(tier, 0)
     if idx % 13 == 12:
         return case_failpoints(idx, rng, tier, res)
+    if idx % 97 == 94:
+        return case_broken_template(idx, rng, res)
     if idx % 97 == 95:
         scn, gname = build_twice_held(rng)
         run = orch.execute(scn)
